@@ -46,6 +46,8 @@ type ScenarioResult struct {
 	Samples     []any            `json:"samples,omitempty"`
 	Violations  []ViolationRec   `json:"violations,omitempty"`
 	WallS       float64          `json:"wall_s"`
+	Races       []sched.RaceRec  `json:"races,omitempty"`         // race build only
+	RaceAcc     int64            `json:"race_accesses,omitempty"` // race build only
 }
 
 // Ctx is handed to a scenario when it runs.
@@ -134,8 +136,10 @@ func ExploreScenario(c *Ctx, prop, name string, opt sched.Options, body func(), 
 	if os.Getenv("VERIF_NOCACHE") != "" {
 		opt.NoCache = true
 	}
+	acc0 := sched.RaceAccesses
 	st := sched.Explore(opt, body, judge)
 	r := FromStats(prop, name, opt.Bound, st)
+	r.Races, r.RaceAcc = sched.DrainRaces(), sched.RaceAccesses-acc0
 	r.WallS = time.Since(t0).Seconds()
 	return r
 }
